@@ -181,14 +181,17 @@ func init() {
 			}
 			for _, codec := range allEntropies {
 				adaptive := codec == "CM" || codec == "TPAQ" || codec == "TPAQX"
-				chunk := map[string]int{"HUFFMAN": 16384, "ANS0": 16384, "RANGE": 32768, "ANS1": 16384}[codec]
+				// internal chunk sizes as read in the codecs: Huffman 16 KiB, ANS0 16 KiB, ANS1 16 KiB << 8 = 4 MiB, Range 32 KiB
+				chunk := map[string]int{"HUFFMAN": 16384, "ANS0": 16384, "RANGE": 32768}[codec]
 				var lens []int
 				for i := 0; i <= 40; i++ {
 					lens = append(lens, i)
 				}
-				lens = append(lens, 63, 64, 65, 255, 256, 257, 1023, 1024, 1025)
+				lens = append(lens, 63, 64, 65, 255, 256, 257, 1023, 1024, 1025, 2047, 2048, 2049)
 				if chunk > 0 {
-					lens = append(lens, chunk-1, chunk, chunk+1, 2*chunk+7)
+					lens = append(lens, chunk-1, chunk, chunk+1, chunk+2, chunk+3, chunk+5, chunk+33, chunk+2048, 2*chunk+7)
+				} else if codec == "ANS1" {
+					lens = append(lens, 16383, 16384, 16385, 32775)
 				} else {
 					lens = append(lens, 16383, 16384, 16385, 32775)
 				}
@@ -207,6 +210,14 @@ func init() {
 								continue
 							}
 							emit(entCase{Codec: codec, Len: n, Hist: h, Arr: a})
+						}
+					}
+				}
+				if codec == "ANS1" || codec == "FPAQ" {
+					// 4 MiB internal chunks: the tail chunk of 1..5, 32, 33 bytes
+					for _, d := range []int{1, 2, 3, 4, 5, 32, 33} {
+						for _, h := range pick(c, []string{"16sym"}, []string{"16sym", "geo", "256flat"}) {
+							emit(entCase{Codec: codec, Len: 4<<20 + d, Hist: h, Arr: "inter"})
 						}
 					}
 				}
